@@ -59,11 +59,12 @@ def client_fn(sim, task_name, target, prog, history, ctx, get_task):
             if op.get('op') == 'advance':
                 sim.advance(op['dt'])
                 continue
-            rec = {'task': task_name, 'i': i, 'op': op, 'inv': sim.stamp(), 'ret': None, 'res': None}
+            rec = {'task': task_name, 'i': i, 'op': op, 'inv': sim.stamp(), 'ret': None, 'res': None, 't_inv': sim.now}
             history.append(rec)
             res = run_op(target, op, ctx)
             rec['res'] = res
             rec['ret'] = sim.stamp()
+            rec['t_ret'] = sim.now
             rec['seams'] = task.op_seams
             rec['sql'] = task.op_sql
             rec['fs'] = task.op_fs
